@@ -10,13 +10,13 @@ EXPLANATION = (
     "Static structural obligations: a dependency A of B ends up in an earlier stage or earlier in B's group. (DEPHIT) when no "
     "resource conflicts, the predicate intersects the pending dependency list with the ids of the group; a hit counts the group as "
     "conflicting and sets the captured flag; (DEPGATE) find_conflict returns Multiple iff (hit and more than one pending) or (no hit "
-    "and some pending), else the fold result; (ORDER) a stage is judged before its ids are crossed off, same stage, same list; "
+    "and some pending), else the verdict of the scan over the groups; (ORDER) a stage is judged before its ids are crossed off, same stage, same list; "
     "(CROSSOFF) only ids read from ids[stage] are crossed off; (APPEND) joining a group is a push and groups run front to back; "
     "(IDS) add draws one fresh id, resolves dependencies before entering its own name, gives the same id to map and placement; "
     "(EXEC) stages run one after another in all dispatch modes. Timing follows from the synchronous call structure under rayon's contract.")
 ASSUMPTIONS = ["rayon install/for_each return after all work finished", "SmallVec::retain / ArrayVec::push semantics"]
 TRUSTED = ["rustc nightly MIR construction", "shred-facts driver", "shredlint analyses"]
-TECHNIQUE = 'static: decision tables of the dependency predicate and gate in find_conflict, dominance (judge before cross-off), traversal/idiom check of remove_ids, id wiring in DispatcherBuilder::add, FANOUT coverage of stage loops'
+TECHNIQUE = 'static: structured evaluation of find_conflict (dependency hit, 8-case truth table of the gate), of the candidate scan (judge before cross-off, same stage, same list), of remove_ids (removal only on equality with an id of the stage) and of DispatcherBuilder::add (id wiring); FANOUT coverage of stage loops'
 RULE_TEXT = "one obligation per decision-table row, ordering site, cross-off idiom, id wiring and run-family fan-out"
 EXEC_IDS = ("Stage::execute", "Stage::execute_seq", "SendDispatcher::dispatch", "SendDispatcher::dispatch_par", "SendDispatcher::dispatch_seq", "AsyncDispatcher::dispatch")
 
